@@ -10,6 +10,7 @@ def run(ctx):
 
     crosscheck_sym.guard(ctx)  # the symbolic-shape tensor layer against real torch, before the clauses that rest on it
     api.run_vcs(ctx, C04_vc.p_vcs(ctx), {"C04.P.advance_step": "real beam_search_advance source for SYMBOLIC batch size, old width, vocabulary, prefix length and beam width (full-length prefixes): slot = source + token with the chained score and the grown path, distinct candidates, best-first, optimal among candidates, fillers beyond min(width, K' V); also with prefix lengths given and previous scores that may be -inf (the form BeamSearch.forward uses): token at the source's length, length + 1, -inf exactly when the source is"})
+    api.run_vcs(ctx, C04_vc.loop_p_vcs(ctx), {"C04.P.search_loop": "real BeamSearch.forward source, end-of-sequence unset, SYMBOLIC batch size, width, vocabulary and step limit, ANY language model, beam_search_advance under its proved contract: loop invariant - a slot is -inf exactly when it holds no path; a path has one token per step, the score chained along its own genealogy from the model's normalised scores, and differs from every other path of its beam; the model is asked about exactly the current paths with the current state, and the next state is the model's new state re-indexed by the global source index"})
     api.run_vcs(ctx, C04_vc.vcs(ctx), {"C04.S.advance_step": "real beam_search_advance source: new score = source score + extension score; new path = source prefix + token; (source, token) pairs distinct; best-first and optimal among candidates; filler slots -inf / length 0; all contents"},
                 bounded="shapes (N,old_width,V,S,width) up to (1,3,2,1,6)/(2,2,2,1,3); ALL scores and prefixes; y_prev_lens omitted")
     C04_rt.run_bounded(ctx)
